@@ -132,7 +132,7 @@ func corner() []input {
 func (prop) Generate(r *core.RNG, tier string) []json.RawMessage {
 	modules, perModule, crashes := 7, 16, 0
 	if tier == "thorough" {
-		modules, perModule, crashes = 45, 1 << 30, 5
+		modules, perModule, crashes = 20, 120, 4
 	}
 	var out []json.RawMessage
 	for _, in := range corner() {
@@ -365,6 +365,30 @@ func crashExplore(in input, base *pipe.Observation, scratch string) (*crashStats
 		}
 		return true, ""
 	}
+	// A torn (emptied) gengo.sum makes the re-run regenerate packages that the uncrashed run skipped as cached (and
+	// e.g. remove their stale files): the re-run may therefore also agree with what a run without the cache leaves.
+	forced := in.Scenario
+	forced.Force = true
+	finalForce := final
+	if fo, err := pipe.RunScenario(forced, scratch+"/forced"); err == nil && fo.Run.Result != nil && fo.Run.Result.Class == "done" {
+		finalForce = fo.After
+	}
+	converged := func(t pipe.Tree) (bool, string) {
+		same := func(a pipe.Tree, p string) bool {
+			x, okX := t[p]
+			y, okY := a[p]
+			return okX == okY && string(x) == string(y)
+		}
+		for _, p := range union(union3(final, finalForce), t) {
+			if p == "gengo.sum" {
+				continue
+			}
+			if !same(final, p) && !same(finalForce, p) {
+				return false, p
+			}
+		}
+		return true, ""
+	}
 	for k := 1; k <= 600; k++ {
 		if k > 150 && k%4 != 0 { // long runs: every crash point up to 150, then every fourth
 			continue
@@ -429,10 +453,10 @@ func crashExplore(in input, base *pipe.Observation, scratch string) (*crashStats
 			cs.RerunLoadError++
 		case r2.Result != nil && r2.Result.Class == "done":
 			t2, _ := pipe.Snapshot(root)
-			if ok, p := genEqual(t2); ok {
+			if ok, p := converged(t2); ok {
 				cs.RerunConverged++
 			} else {
-				viol = append(viol, fmt.Sprintf("crash point %d: the re-run succeeded but %s differs from the uncrashed result", k, p))
+				viol = append(viol, fmt.Sprintf("crash point %d: the re-run succeeded but %s is neither what the uncrashed run nor what a run without the cache leaves", k, p))
 			}
 		default:
 			msg := "died"
@@ -444,6 +468,19 @@ func crashExplore(in input, base *pipe.Observation, scratch string) (*crashStats
 		_ = removeAll(dir)
 	}
 	return cs, viol
+}
+
+func union3(a, b pipe.Tree) pipe.Tree {
+	m := pipe.Tree{}
+	for p, x := range a {
+		m[p] = x
+	}
+	for p, x := range b {
+		if _, ok := m[p]; !ok {
+			m[p] = x
+		}
+	}
+	return m
 }
 
 func union(a, b pipe.Tree) []string {
